@@ -133,8 +133,13 @@ class Driver:
         t = len(self.F)
         self.F.append(f)
         self.V.append(v)
-        with np.errstate(all="ignore"):
-            self.pb(np.array([float(t)]))
+        try:
+            with np.errstate(all="ignore"):
+                self.pb(np.array([float(t)]))
+        except Exception as exc:
+            self.out.fail("C03.exc", "feeding the evaluation (%r, %r) raised %s: %s" % (f, v, type(exc).__name__, exc))
+            self.pairs.append((f, float("nan") if isn(v) else max(v, 0.0)))
+            return
         cv = float("nan") if isn(v) else max(v, 0.0)
         if not isn(f) and not isn(cv) and any(isn(a) or isn(b) for a, b in self.pairs):
             self.flags.add("nan-then-defined")
@@ -149,8 +154,13 @@ class Driver:
         if evicted:
             self.flags.add("eviction")
         for pen in pens:
-            with np.errstate(all="ignore"):
-                x, bf, bc = self.pb.best_eval(pen)
+            try:
+                with np.errstate(all="ignore"):
+                    x, bf, bc = self.pb.best_eval(pen)
+            except Exception as exc:
+                self.out.fail("C03.exc", "best_eval(%g) raised %s: %s; history %r"
+                              % (pen, type(exc).__name__, exc, [(a, b) for a, b in self.pairs][-8:]))
+                continue
             bf, bc = float(bf), float(bc)
             i = int(x[0])
             if not (0 <= i < len(self.pairs) and same(self.F[i], bf) and same(self.pairs[i][1], bc)):
@@ -240,7 +250,7 @@ def budget(tier):
 
 @st.composite
 def strategy_e2e(draw):
-    sp = dec(draw(S.problems(PROFILE)))
+    sp = dec(draw(S.nan_split_problems(PROFILE) if draw(st.integers(0, 7)) == 0 else S.problems(PROFILE)))
     sp["options"]["store_history"] = True
     sp["options"].pop("history_size", None)
     sp["options"].pop("filter_size", None)
